@@ -105,6 +105,8 @@ def run(prop: str, tier: str) -> int:
             base = bytes(rng.choice(alpha) for _ in range(rng.randint(0, 12)))
             k = rng.choice(kws)
             data = base + rng.choice([k, k.upper(), k.lower(), k.swapcase()]) + rng.choice([b"", b" ", b"x", k])
+            if i % 4 == 0:      # the same keyword several times in different spellings (the label is decided per occurrence)
+                data = k + b" " + k.swapcase() + b";" + k + b" " + k.title() + b" " + base
             rec = call(s[0], data, kws, "rnd.list")
             rec["origin"] = "random"
             f.write(json.dumps(rec) + "\n")
